@@ -45,6 +45,8 @@ pub fn fixtures() -> &'static Vec<String> {
 const TOKENS: &[&str] = &[
     "NaN", "inf", "-inf", "1e999", "-0", "2147483647", "2147483648", "-2147483648", "-2147483649", "131072", "131073", "-131072", "9000", "9001", "",
     "abc", "1e-320", "0x10", "1.5", "-1", "4294967296", "99999999999999999999", "1,2", "|", ":", "0:0:0:0:", "B|1:1", "٣",
+    // signed / alternative spellings the float parser accepts
+    "-nan", "-NaN", "+NaN", "nan", "+inf", "infinity", "-Infinity", "-0.0", "+0", "1e-400", "-1e-400", "-1e999", ".5", "5.", "+7", " 3", "3 ", "1_0",
 ];
 
 fn mutate_lines(t: &mut Tape, text: &str, labels: &mut Vec<&'static str>) -> String {
